@@ -5,6 +5,7 @@ import (
 	"go/token"
 	"go/types"
 	"sort"
+	"strconv"
 	"strings"
 
 	"golang.org/x/tools/go/ssa"
@@ -374,6 +375,31 @@ func (f *Frame) numberSites() {
 				count[s]++
 			}
 			f.siteOrd[in] = m
+		}
+	}
+	// a site clause whose selector names no instruction of the function generates no
+	// obligation at all: report it instead of passing vacuously
+	if f.fc != nil && f.parent == nil {
+		for _, sc := range f.fc.Sites {
+			sel := sc.Selector
+			// prohibitions ("the function never does X": condition false, or a clause named
+			// never_...) describe instructions that need not exist
+			if strings.TrimSpace(sc.Src) == "false" || strings.HasPrefix(sc.Name, "never_") {
+				continue
+			}
+			hit := false
+			if i := strings.LastIndex(sel, "#"); i >= 0 {
+				if k, err := strconv.Atoi(sel[i+1:]); err == nil {
+					hit = count[sel[:i]] > k
+				}
+			}
+			if !hit && count[sel] > 0 {
+				hit = true
+			}
+			if !hit {
+				f.c.oblige("error", fmt.Sprintf("%s#site:%s", shortFn(f.fn), sc.Name), tTrue, tFalse,
+					fmt.Sprintf("contract error: site selector %q matches no instruction of the function", sel))
+			}
 		}
 	}
 }
